@@ -115,9 +115,9 @@ func hashMod(s string, m int) int {
 
 type suiteStats struct {
 	trees, small, projected, projections, skippedTwins, skippedD2, truncated int
-	calls, lines                                                           int
-	families                                                               map[string]int
-	skippedCalls                                                           map[string]int
+	calls, lines                                                             int
+	families                                                                 map[string]int
+	skippedCalls                                                             map[string]int
 }
 
 func cmdSuite(args []string) {
